@@ -55,7 +55,7 @@ var props = map[string]propSpec{
 		requiredProbes: []string{"ack-during-store-call", "explicit-save", "clean-save-episode", "failed-save-episode", "advanced-by-non-document-event", "parked-at:consumer.trackoffset"}},
 	"C01": {level: "exploration", quickRuns: 2500, thoroughRuns: 60000, runLimit: 30 * time.Second,
 		requiredProbes: []string{"checkpoint-write-judged", "crash-with-unacked-delivery", "restart-after-crash-with-unacked-event", "absorbed-event-while-earlier-delivery-unacked"}},
-	"C06": {scenarios: []string{"C06", "C06", "C06", "C06", "C15"}, level: "exploration", quickRuns: 3000, thoroughRuns: 60000, runLimit: 30 * time.Second,
+	"C06": {scenarios: []string{"C06", "C06", "C06", "C06", "C15", "C08"}, level: "exploration", quickRuns: 3600, thoroughRuns: 60000, runLimit: 30 * time.Second,
 		requiredProbes: []string{"multi-item-snapshot-offset", "ack-of-event-from-older-snapshot", "seqno-advanced-closing-snapshot", "stored-offset-judged", "out-of-snapshot-item-emitted", "stream-request-offset-judged"}},
 	"C13": {scenarios: []string{"C13", "C13r"}, level: "exploration", quickRuns: 2500, thoroughRuns: 60000, runLimit: 30 * time.Second,
 		requiredProbes: []string{"close:idle", "close:during-delivery", "close:save-in-flight", "shutdown-completed", "close:during-rebalance", "notification-during-shutdown-stream-stop", "close-after-a-failed-save"}},
